@@ -173,7 +173,7 @@ func init() {
 			{Name: "hammer", N: core.TierN(16, 800), Batch: 2, Run: c17Hammer},
 			{Name: "instant-release", N: core.TierN(60, 2400), Batch: 20, Run: c17InstantRelease},
 			{Name: "early-return", N: core.TierN(200, 8000), Batch: 50, Run: c17EarlyReturn},
-			{Name: "tight-loop", N: core.TierN(24, 960), Batch: 4, Run: c17TightLoop},
+			{Name: "tight-loop", N: core.TierN(160, 3200), Batch: 8, Run: c17TightLoop},
 		},
 	})
 }
@@ -502,7 +502,7 @@ func c17InstantRelease(c *core.Ctx) {
 func c17TightLoop(c *core.Ctx) {
 	r := &w17Run{}
 	g := 2 + c.Rng.IntN(5)
-	cycles := 1500
+	cycles := 3000
 	if c.Thorough() {
 		cycles = 4000
 	}
